@@ -344,3 +344,51 @@ def contains_alias(*vals):
         if isinstance(a, (bool, int, float)):
             nums.setdefault(a, set()).add(type(a))
     return any(len(t) > 1 for t in nums.values())
+
+
+def gen_atom_list_pair(rng, maxlen=12, alphabet=None):
+    """Two lists over a small alphabet related by insert/delete/replace/move/
+    duplicate edits - the shapes on which the difflib pass and the pairwise pass
+    of DeepDiff's default mode each win sometimes."""
+    alphabet = alphabet or rng.choice([["a", "b", "c", "d"], [1, 2, 3, 4], ["a", 1, None, 2.5], ["x", "y"]])
+    n = rng.randint(0, maxlen)
+    a = [rng.choice(alphabet) for _ in range(n)]
+    b = list(a)
+    kinds = []
+    for _ in range(rng.randint(0, 5)):
+        k = rng.choice(["insert", "delete", "replace", "move", "dup", "rotate"])
+        if k == "insert":
+            b.insert(rng.randint(0, len(b)), rng.choice(alphabet))
+        elif k == "delete" and b:
+            del b[rng.randrange(len(b))]
+        elif k == "replace" and b:
+            b[rng.randrange(len(b))] = rng.choice(alphabet)
+        elif k == "move" and len(b) >= 2:
+            x = b.pop(rng.randrange(len(b)))
+            b.insert(rng.randint(0, len(b)), x)
+        elif k == "dup" and b:
+            b.insert(rng.randint(0, len(b)), rng.choice(b))
+        elif k == "rotate" and len(b) >= 2:
+            r = rng.randrange(1, len(b))
+            b = b[r:] + b[:r]
+        else:
+            continue
+        kinds.append(k)
+    return a, b[:maxlen + 3], kinds
+
+
+def plant(rng, outer_depth, leaf_pair):
+    """Wrap a pair (x, y) identically into `outer_depth` levels of dict/list so
+    that the interesting difference sits below a common path."""
+    a, b = leaf_pair
+    for _ in range(outer_depth):
+        k = rng.choice(["L", "D", "T"])
+        if k == "L":
+            pre = [gen_atom(rng) for _ in range(rng.randint(0, 2))]
+            a, b = copy.deepcopy(pre) + [a], copy.deepcopy(pre) + [b]
+        elif k == "T":
+            a, b = (a, 1), (b, 1)
+        else:
+            key = rng.choice(["k", "k2", 1, 2.5, None, True])
+            a, b = {key: a, "z": 0}, {key: b, "z": 0}
+    return a, b
